@@ -57,3 +57,19 @@ package neuronjson
 //@   assert at "origData, found, err := d.getStoreData(ctx, keyStr)": heldw("d.updateMu")
 //@   assert at "mdb.data[bodyid] = newData": heldw("d.updateMu") && lockepoch("d.updateMu") == ep && heldw("mdb.mu")
 //@   assert at "return d.putStoreData(ctx, keyStr, newData)": heldw("d.updateMu") && lockepoch("d.updateMu") == ep
+
+// GetKeysInRange, in-memory branch head (C16, C05): the ids returned are exactly the stored ids in
+// [keyBeg, keyEnd] - everything before the slice taken from the sorted id list is below the range,
+// everything in it is inside, everything after it is above - i.e. what the store path returns for the
+// same interval. ASSUMED (data-structure invariant, established by loadMemDB / addBodyID / deleteBodyID,
+// whose contracts prove it): the id list is in non-decreasing order.
+//@ func Data.GetKeysInRange
+//@   prop C16 C05
+//@   requires d != nil
+//@   safety_off
+//@   modifies *
+//@   assume after "defer mdb.mu.RUnlock()": idsNonDecr(mdb.ids)
+//@   assert at "size := endI - begI": 0 <= begI && begI <= len(mdb.ids) && 0 <= endI && endI <= len(mdb.ids)
+//@   assert at "size := endI - begI": forall j int :: {mdb.ids[j]} begI <= j && j < endI ==> bodyidBeg <= mdb.ids[j] && mdb.ids[j] <= bodyidEnd
+//@   assert at "size := endI - begI": forall j int :: {mdb.ids[j]} 0 <= j && j < begI ==> mdb.ids[j] < bodyidBeg
+//@   assert at "size := endI - begI": forall j int :: {mdb.ids[j]} endI <= j && j < len(mdb.ids) ==> mdb.ids[j] > bodyidEnd
